@@ -3,6 +3,7 @@ package main
 import (
 	"errors"
 	"fmt"
+	"strings"
 	"sync"
 	"time"
 
@@ -176,6 +177,7 @@ type pairScen struct {
 	final                        string
 	csSent, csGot, scSent, scGot []int
 	discard                      bool
+	ids                          [2]string
 }
 
 func runPair(r *vh.Rng, directed int) *pairScen {
@@ -210,6 +212,8 @@ func runPair(r *vh.Rng, directed int) *pairScen {
 		cfg = pairCfg{paired: true, cancels: directed == 11, approves: directed == 12}
 	case 13, 14:
 		cfg = pairCfg{auto: true, allow: true, cancels: directed == 13, approves: directed == 14, cid: 1, sid: 1}
+	case 15, 16: // a device whose SHIP id contains the word "datagram"
+		cfg = pairCfg{paired: true, cid: directed - 15, sid: 16 - directed}
 	}
 	inReady := directed >= 11 && directed <= 14
 	// patient mode (PairPatient.v): while the user has not acted and nothing is under way, the
@@ -218,29 +222,57 @@ func runPair(r *vh.Rng, directed int) *pairScen {
 	rounds := 0
 	if directed >= 8 && directed <= 10 {
 		rounds = 1 + directed%2
-	} else if directed > 14 && r.Chance(35) {
+	} else if directed > 16 && r.Chance(35) {
 		rounds = 1 + r.Intn(3)
 	}
 	// racing mode (PairArb.v): in a quarter of the random runs a timer may expire at any moment
 	// at which the peer has taken what the expiring side wrote and at most one frame is in flight
 	// towards it - also while the user has not acted and while that frame is under way
-	racing := directed > 14 && rounds == 0 && r.Chance(25)
+	racing := directed > 16 && rounds == 0 && r.Chance(25)
 	sc := &pairScen{cfg: cfg}
 	trusted := false
 	var qcs, qsc []wireItem
 	cl := &side{out: &qcs, trusted: &trusted, cfg: &cfg}
 	sv := &side{out: &qsc, trusted: &trusted, cfg: &cfg, server: true}
+	// the SHIP ids of the two devices: any strings - among them ids that use words of the protocol
+	// ("datagram", "connectionClose", a JSON fragment); a wrong stored id is another id or the right
+	// one in another letter case / with a blank appended
+	idPairs := [][2]string{{"clientID", "serverID"}, {"clientID", "serverID"}, {"clientID", "serverID"},
+		{"datagram-logger-1", "serverID"}, {"clientID", "the datagram server"}, {"connectionClose", "accessMethods"},
+		{"id-{braces}", "[brackets],:"}}
+	ids := idPairs[0]
+	if directed == 15 {
+		ids = idPairs[3]
+	} else if directed == 16 {
+		ids = idPairs[4]
+	} else if directed > 16 {
+		ids = vh.Pick(r, idPairs)
+	}
+	wrongs := func(right string) []string {
+		w := []string{"wrongID", "wrongID", right + " "}
+		for _, v := range []string{strings.ToUpper(right), strings.ToLower(right)} {
+			if v != right {
+				w = append(w, v)
+			}
+		}
+		return w
+	}
 	stored := func(k int, right string) string {
 		switch k {
 		case 1:
 			return right
 		case 2:
-			return "wrongID"
+			w := wrongs(right)
+			if directed <= 16 {
+				return w[0]
+			}
+			return vh.Pick(r, w)
 		}
 		return ""
 	}
-	cl.conn = ship.NewConnectionHandler(cl, cl, ship.ShipRoleClient, "clientID", "skiS", stored(cfg.cid, "serverID"))
-	sv.conn = ship.NewConnectionHandler(sv, sv, ship.ShipRoleServer, "serverID", "skiC", stored(cfg.sid, "clientID"))
+	sc.ids = ids
+	cl.conn = ship.NewConnectionHandler(cl, cl, ship.ShipRoleClient, ids[0], "skiS", stored(cfg.cid, ids[1]))
+	sv.conn = ship.NewConnectionHandler(sv, sv, ship.ShipRoleServer, ids[1], "skiC", stored(cfg.sid, ids[0]))
 	cl.conn.Run()
 	sv.conn.Run()
 	userDone := false
@@ -372,7 +404,7 @@ func runPair(r *vh.Rng, directed int) *pairScen {
 		userCan := !userDone && (cfg.approves || cfg.cancels)
 		if userCan && rounds > 0 && len(en) == 0 {
 			ss := sv.conn.VerifSnapshot()
-			if ss.State == 11 && ss.TimerRunning && (cfg.allow || trusted) && (directed <= 14 || r.Chance(70)) {
+			if ss.State == 11 && ss.TimerRunning && (cfg.allow || trusted) && (directed <= 16 || r.Chance(70)) {
 				rounds--
 				exec("LTimeoutS")
 				continue
@@ -478,7 +510,7 @@ func (sc *pairScen) toCase() vh.Case {
 	coq := fmt.Sprintf("mkPairCase %s %s %s %s %s %s %s", sc.cfg.coq(), vh.List(sc.labels), vh.List(sc.sums), ints(sc.csSent), ints(sc.csGot), ints(sc.scSent), ints(sc.scGot))
 	kind := fmt.Sprintf("paired=%v auto=%v allow=%v approves=%v cancels=%v", sc.cfg.paired, sc.cfg.auto, sc.cfg.allow, sc.cfg.approves, sc.cfg.cancels)
 	return vh.Case{Coq: coq, Nontrivial: len(sc.labels) >= 6, Key: coq, Kind: kind,
-		Sample: map[string]any{"config": fmt.Sprintf("%+v", sc.cfg), "labels": sc.labels, "summaries_after_each_label": sc.sums,
+		Sample: map[string]any{"config": fmt.Sprintf("%+v", sc.cfg), "ship_ids_client_server": sc.ids, "labels": sc.labels, "summaries_after_each_label": sc.sums,
 			"spine_burst": map[string]any{"client_wrote": sc.csSent, "server_got": sc.csGot, "server_wrote": sc.scSent, "client_got": sc.scGot}}}
 }
 
